@@ -12,6 +12,10 @@ R09.4 table / stream pairing: in every scan loop t1 is indexed only by bytes of 
       by bytes of the outgoing stream b2.
 R09.5 every consumed byte is tested: no path of a scan loop updates the hash from the tables and then returns
       with the index advanced past that byte without comparing (hash & mask) with the trigger.
+R09.6 "otherwise consumes max_len bytes" for every max_len of the 32-bit API: the scan position and the bound are
+      compared as unsigned 32-bit quantities in every scan-loop implementation - in the C loop no signed compare and
+      no sign extension touches the bound parameter, in the assembly loops no signed condition follows a compare
+      with the bound register.  (A signed bound makes a run of 2^31 bytes or more consume nothing.)
 R09.3 no private tables: the scan loops (_rolling_hash2_run_until_{base,00,04}) read table entries only through
       their t1/t2 arguments, never from static storage.
 """
@@ -245,6 +249,68 @@ def run(chk):
         chk.obligation("R09.3", not bad, key=name, sample={"function": name, "instructions": f.insns})
         for i in bad[:2]:
             chk.finding(Finding("R09.3", f.obj.name, name, "static-table-load", "`%s` reads an 8-byte table entry from static storage instead of the caller-supplied tables" % i.text.strip(), loc=f.obj.line_of(f.sec, i.addr)))
+    # ---- R09.6 unsigned bound
+    nb6 = 0
+    for src, M in sorted(mods.items()):
+        for F in M.defined():
+            if F.name != "_rolling_hash2_run_until_base":
+                continue
+            bn = F.arg_index("max_idx")
+            if bn is None:
+                bn = 1
+            nb6 += 1
+            bad6 = None
+            for I in F.all_insts():
+                if I.op == "icmp":
+                    es = [ir.expr_str(F, o) for o in I.ops]
+                    if any(("arg:" + (F.args[bn].get("name") or str(bn))) in e for e in es) and I.pred in ("slt", "sle", "sgt", "sge"):
+                        bad6 = bad6 or (I, "compares the position with the bound as signed integers (`icmp %s`)" % I.pred)
+                if I.op == "sext":
+                    r = F.resolve(I.ops[0])
+                    if isinstance(r, dict) and r.get("k") == "a" and r.get("n") == bn:
+                        bad6 = bad6 or (I, "sign-extends the bound")
+            dt = (F.args[bn].get("dtype") or "")
+            if bad6 is None and dt in ("int", "int32_t", "long"):
+                bad6 = (F.first(), "declares the bound as %s" % dt)
+            chk.obligation("R09.6", bad6 is None, key=(src, F.name), sample={"unit": src, "function": F.name, "bound_type": dt})
+            if bad6:
+                chk.finding(Finding("R09.6", src, F.name, "signed-bound", "the scan loop %s: a run with max_len >= 2^31 consumes nothing in this implementation and reports offset = w, while the assembly implementations scan the whole buffer" % bad6[1], loc=bad6[0].loc()))
+    for key, name in lib.entry_list:
+        if name not in ("_rolling_hash2_run_until_00", "_rolling_hash2_run_until_04"):
+            continue
+        f = lib.func(key)
+        p6 = absint.Interp(lib, lambda t, c=None: c19.summary_of(lib, t, c), keep_regs=True).run(f)
+        nb6 += 1
+        bad6 = None
+        ncmp = 0
+        for bl in f.blocks.values():
+            for k, i in enumerate(bl):
+                if not i.op.startswith("CMP") or i.mem >= 0:
+                    continue
+                st = p6.reg_at.get(i.addr) or {}
+                isb = False
+                for rr in i.reg_uses_nomem():
+                    v = st.get(x86.PARENT.get(rr))
+                    rs = absint.roots(v) if v is not None else None
+                    if rs is not None and rs == frozenset(("RSI",)):
+                        isb = True
+                if not isb:
+                    continue
+                ncmp += 1
+                for j in bl[k + 1:]:
+                    if j.is_cond():
+                        cc = j.imm(1)
+                        if cc in (12, 13, 14, 15) and x86.WIDTH.get(i.reg(0), 64) < 64:
+                            bad6 = bad6 or (j, i)
+                        break
+                    if "EFLAGS" in j.idefs:
+                        break
+        chk.obligation("R09.6", bad6 is None and ncmp > 0, key=name, sample={"function": name, "compares_with_bound": ncmp})
+        if ncmp == 0:
+            chk.broke("%s: no compare with the bound register found" % name)
+        if bad6:
+            chk.finding(Finding("R09.6", f.obj.name, name, "signed-bound", "`%s` after `%s` treats the 32-bit bound as signed" % (bad6[0].text.strip(), bad6[1].text.strip()), loc=f.obj.line_of(f.sec, bad6[0].addr)))
+    chk.floor("scan-loop implementations checked for an unsigned bound", nb6, 3)
     chk.extra["scan_loop_loads_classified"] = n_loads
     return ("Table identity (256 pinned 64-bit constants, no writer, init reads only this global), must-pass-through of the three state refreshes on all %d exits of "
             "_rolling_hash2_run, and load provenance in %d scan-loop implementations." % (exits, len(scanners)))
